@@ -112,6 +112,9 @@ class Indicator(ABC):
         self.candles_lifespan = manager.candles_lifespan
         self.candlestick_type = manager.candlestick_type
 
+        for indicator in (*self.sub_indicators.values(), *self.managed_indicators.values()):
+            indicator.candle_manager = manager
+
     @property
     def name(self) -> str:
         """The indicator name that will be saved into the Candles"""
